@@ -71,7 +71,7 @@ def _wrap(x, length):
 
 contract(
     "odfdo.utils.coordinates:translate_from_any",
-    sig=dict(x=Int, length=Int, idx=Const(0)),
+    sig=[dict(x=Int, length=Int, idx=Const(0)), dict(x=Int, length=Int, idx=Const(1))],
     requires=lambda a: a.length >= 0,
     ensures=[Clause("int-form", {"C19", "C01", "C08"}, lambda a, r, p: S.And(
         S.Implies(a.x >= 0, r == a.x),
@@ -98,6 +98,7 @@ contract(
         S.Implies(S.And(a.x < 0, vlen(a.self, "cells") > 0), lambda: r < vlen(a.self, "cells"))))],
     result=Int,
     concretize=concretize_vault, gen=gen_vault,
+    observer=True,
 )
 
 
